@@ -366,10 +366,14 @@ def _trilinear(ctx, corner, ext):
 
 @scenario('C20', fns=['voxelize.voxelize', '_voxelize.generate_voxel_grid', '_voxelize.find_inouts_st',
                       '_voxelize.is_point_inside_voxel', 'linalg.frange', 'utilities.evaluate_bounding_box'],
-          quick=[dict(grid=[2, 2, 2], samples=2), dict(grid=[2, 3, 2], samples=2), dict(grid=[3, 2, 4], samples=3)],
+          quick=[dict(grid=[2, 2, 2], samples=2), dict(grid=[2, 3, 2], samples=2), dict(grid=[3, 2, 4], samples=3),
+                 # the multi-process path (A4: the pool by its contract), counts that the number of processes does not divide
+                 dict(grid=[3, 3, 3], samples=3, num_procs=2), dict(grid=[2, 2, 2], samples=3, num_procs=4)],
           thorough=[dict(grid=[2, 2, 2], samples=2), dict(grid=[2, 3, 2], samples=2), dict(grid=[3, 2, 4], samples=3),
-                    dict(grid=[4, 4, 4], samples=4), dict(grid=[5, 3, 8], samples=3)])
-def voxel_box(ctx, grid, samples):
+                    dict(grid=[4, 4, 4], samples=4), dict(grid=[5, 3, 8], samples=3),
+                    dict(grid=[3, 3, 3], samples=3, num_procs=2), dict(grid=[2, 2, 2], samples=3, num_procs=4),
+                    dict(grid=[3, 5, 7], samples=3, num_procs=8)])
+def voxel_box(ctx, grid, samples, num_procs=1):
     """requires: trilinear volume = axis-aligned box with symbolic corner and symbolic extents > 1/1000, sampled on a
                  samples^3 lattice; grid sizes as stated
        ensures : the grid has prod(grid) voxels: voxel (i, j, l) (l fastest) = [min + (i, j, l) * step, that + step] with
@@ -384,7 +388,13 @@ def voxel_box(ctx, grid, samples):
     vol.sample_size = samples
     pts = [list(p) for p in vol.evalpts]
     ctx.check_true('samples.count', len(pts) == samples ** 3)
-    g, filled = vx.voxelize(vol, grid_size=tuple(grid))
+    if num_procs > 1:
+        from . import c17
+        stats = c17._pools(ctx)
+        g, filled = vx.voxelize(vol, grid_size=tuple(grid), num_procs=num_procs)
+        ctx.check_true('pool.used', stats['pools'] >= 1, 'no process pool was created for num_procs=%d' % num_procs)
+    else:
+        g, filled = vx.voxelize(vol, grid_size=tuple(grid))
     bbox = [list(corner), [c + x for c, x in zip(corner, ext)]]
     ctx.check_eq_grid('bbox', [list(vol.bbox[0]), list(vol.bbox[1])], bbox)
     ctx.check_true('grid.len', len(g) == grid[0] * grid[1] * grid[2], 'len(grid) = %d' % len(g))
